@@ -20,7 +20,7 @@ disassem_string (char *str)
     return "0";
 
   b = buf;
-  for (i = 0; i < 29; i++)
+  for (i = 0; i < 29 && b < buf + sizeof (buf) - 2; i++) /* a newline takes two bytes */
     {
       if (!str[i])
         break;
